@@ -33,7 +33,16 @@ Execution / oracle
         Verdict.outcome in agree | pony_raised | db_error | no_reference | unsupported | known | disagree
         Verdict.findings  list of finding ids when outcome == 'known'
     shrink(env, program, data, still_bad, budget=60) -> (program, data)   greedy witness reduction
-    DEVIATIONS: {switch: finding id}  deviation rules = known findings (DESIGN.md section 5)
+    DEVIATIONS: {switch: finding id}  deviation rules = known findings (DESIGN.md section 5): the reference is re-evaluated
+                with the switches of the deviation SITES it met (singly, all together, pairs/triples; sites hidden behind
+                another deviation surface in later rounds); KNOWN only if pony's answer is reproduced exactly
+    SHAPE_RULES: {shape: finding id}  mechanisms whose deviant answer depends on the backend's arbitrary row choice or
+                on alias allocation: recognised by a narrow static predicate on the query text (scan_shapes)
+    Interp(mirror, params, dev)       the expression interpreter itself (.cond/.ev/.stype/.optref_drop) -- C24 uses it to
+                evaluate filter()/where() predicates on result elements
+    lint_program(src), has_ifexp(program)   drafts that belong to other properties (C03 decompiler shapes, C04 ast2src)
+    ProgramGen(..., neutral_domain=True)    no division/pow, dates, Decimals, floats, non-ASCII text (for C02)
+    ProgramGen(..., exclude={'div', 'strip0', 'slice', 'ifexp', 'fstring', 'group_concat', ...})   feature switches
 
 Reference semantics (the model; DESIGN.md 2.1)
     * Python semantics for operators; None propagates through operators inside conditions (SQL NULL);
